@@ -498,6 +498,35 @@ func VerifSelf_RaceFree() {
 	verifReach("end")
 }
 
+// VerifSelf_ParallelLoop: a loop split over goroutines and joined by a WaitGroup and by a
+// results channel, in a job that does not ask for a scheduler (the default one is used).
+func VerifSelf_ParallelLoop() {
+	xs := make([]int, 4)
+	for i := range xs {
+		xs[i] = verifInt("x"+string(rune('a'+i)), 0, 9)
+	}
+	part := make([]int, 2)
+	var wg sync.WaitGroup
+	for w := 0; w < 2; w++ {
+		wg.Add(1)
+		go func(w int) {
+			defer wg.Done()
+			for _, x := range xs[w*2 : w*2+2] {
+				part[w] += x
+			}
+		}(w)
+	}
+	wg.Wait()
+	res := make(chan int, 2)
+	for w := 0; w < 2; w++ {
+		go func(w int) { res <- part[w] * 2 }(w)
+	}
+	total := <-res + <-res
+	verifAssert(total == 2*(xs[0]+xs[1]+xs[2]+xs[3]), "parallel-sum")
+	verifObserve("parloop", total)
+	verifReach("end")
+}
+
 // VerifSelf_Atomics: atomic.Value publication, atomic.Int64 methods, CompareAndSwap as a lock.
 func VerifSelf_Atomics() {
 	var cfg atomic.Value
